@@ -46,6 +46,9 @@ pub struct KnownMatch {
     /// the violation must have fired at a veteran uptime of at least this many ticks
     #[serde(default)]
     pub min_uptime: Option<u64>,
+    /// the minimised scenario must contain a bar whose raw money flow (typical price x volume) is negative
+    #[serde(default)]
+    pub needs_negative_money_flow: bool,
 }
 
 #[derive(Clone, Debug, Serialize, Deserialize)]
@@ -93,6 +96,12 @@ pub fn match_known(sc: &Scenario, v: &Violation) -> Option<&'static KnownFinding
         }
         if k.m.needs_nan_input {
             let has = sc.ops.iter().any(|o| matches!(o, crate::scenario::Op::Feed { x, .. } if x.fields().iter().any(|f| f.is_nan())));
+            if !has {
+                return false;
+            }
+        }
+        if k.m.needs_negative_money_flow {
+            let has = sc.ops.iter().any(|o| matches!(o, crate::scenario::Op::Feed { x, .. } if ((x.c + x.h + x.l) / 3.0) * x.v < 0.0));
             if !has {
                 return false;
             }
